@@ -161,6 +161,7 @@ func init() {
 			{Name: "prefixes", Run: prefixUnit("sam", false, 0)},
 			{Name: "edges", Run: edgeUnit("sam")},
 			{Name: "lexicon", TShards: 4, Run: lexiconUnit("sam")},
+			{Name: "mixedsizes", QShards: 4, TShards: 8, Run: mixedSizesUnit("sam")},
 			{Name: "fieldlens", TShards: 4, Run: lengthUnit("sam")},
 			{Name: "parallel", Race: true, Run: codecParallel("sam", "samh")},
 			{Name: "histories", Run: codecHistories("sam", "samh")},
